@@ -15,9 +15,11 @@ def is_target_fault(tr):
     return any(c["out"] is not None and c["out"][0] == "fault" for c in tr["calls"])
 
 
-def tie_skeleton(ctx, broken, specs_faults, name, need_det_ok=True, extra_valid=None):
-    """Run/load the traces, compare every one with the skeleton model.  Returns [(trace, parsed|None)]."""
-    trs = S.traces(specs_faults, name)
+def tie_skeleton(ctx, broken, specs_faults, name, need_det_ok=True, extra_valid=None, trs=None):
+    """Run/load the traces, compare every one with the skeleton model.  Returns [(trace, parsed|None)].
+    trs: traces already recorded for specs_faults by another runner (harness/run_optmatrix.py) - same format."""
+    if trs is None:
+        trs = S.traces(specs_faults, name)
     out, cases, idx = [], [], []
     shape_errors = []
     for i, tr in enumerate(trs):
